@@ -1154,6 +1154,38 @@ def tool_leg(col: common.Collector, tmp: str, edits: List[G.J]) -> None:
         if rows != want:
             col.violation(("list-tool-overview-wrong", "variants-selected" if variants else "all-layers"),
                           dict(det, table_rows=rows, expected_rows=want))
+    # the compare tool for the variants of ONE file, several times in this process: every run
+    # prints the overview of exactly the variants it was asked for
+    cparser = argparse.ArgumentParser()
+    csub = cparser.add_subparsers(dest="subparser_name")
+    compare.add_subparser(csub)
+    for variants in (all_names[:2], all_names[1:3], all_names[-2:], all_names[:3]):
+        if len(variants) < 2:
+            continue
+        argv = ["compare", old_path, "-v"] + variants
+        det = {"what": "compare-tool-variants", "argv": ["compare", "<pdx>", "-v"] + variants}
+        col.ev()
+        try:
+            text = capture_tool(compare.run, cparser.parse_args(argv))
+        except BaseException as x:  # noqa
+            det["problem"] = f"{type(x).__name__}: {x}"
+            col.violation(("compare-tool-raises", type(x).__name__), det)
+            continue
+        body = text.split("Changes in diagnostic layer", 1)[0]
+        rows = parse_table(body)
+        by_name = {dl.short_name: dl for dl in db_old.diag_layers}
+        want = sorted([n, by_name[n].variant_type.value, str(len(by_name[n].services)),
+                       str(len(by_name[n].diag_data_dictionary_spec.data_object_props)),
+                       str(len(getattr(by_name[n], "comparam_refs", [])))] for n in set(variants))
+        col.count("tool-leg:variant-overviews")
+        col.nontrivial(("compare-tool-variants", tuple(variants)))
+        if sorted(rows) != want:
+            col.violation(("compare-tool-overview-wrong", "variants-of-one-file"),
+                          dict(det, table_rows=rows, expected_rows=want))
+        if text.count("Changes in diagnostic layer") != len(set(variants)) - 1:
+            col.violation(("compare-tool-overview-wrong", "number-of-comparisons"),
+                          dict(det, comparisons=text.count("Changes in diagnostic layer"),
+                               expected=len(set(variants)) - 1))
     for n, e in enumerate(picks):
         root_e = ET.fromstring(subj.xml)
         apply_edit(root_e, e)
@@ -1233,7 +1265,7 @@ REQUIRED = (["kind:add", "kind:delete", "kind:rename", "kind:param-change",
              "self-compare:layers", "db-compare:self", "db-compare:edit", "metrics-rows",
              "metrics-rows-with-comparams", "metrics-rows-with-dops", "somersault-edits",
              "edit:delete/service/new-layer-has-no-service", "edit:param-change/dop-data-type",
-             "tool-leg:overview-tables", "tool-leg:list-overviews"] +
+             "tool-leg:overview-tables", "tool-leg:list-overviews", "tool-leg:variant-overviews"] +
             [f"attr:{a}/{k}" for a in PARAM_ATTRS for k in ("request", "pos", "neg")])
 
 
